@@ -1,4 +1,13 @@
-(* C08 — HTTP share (statements restated from coq/Http/HttpC08.v; each closed by exact) *)
+(* C08 — HTTP share (statement restated from coq/Http/HttpC08.v; closed by exact) *)
 Require Import V.Base.Prelude V.Http.HBytes V.Http.H2Asm V.Http.HttpLoop.
 Require Import V.Http.HttpC08.
 
+(* base's own HTTP code reaches the connection only through library calls that loop until
+   satisfied (Peek, Discard, http.ReadRequest/ReadResponse, Framer.ReadFrame); with the contract
+   that their results depend on the concatenation of the reads only, the outcome of Dissect is the
+   same for every segmentation *)
+Theorem C08_http_C08_chunking : forall lib : list bytes -> pk * list libev,
+  (forall cs1 cs2, concat cs1 = concat cs2 -> lib cs1 = lib cs2) ->
+  forall is_client cs1 cs2 st, concat cs1 = concat cs2 ->
+  dissect is_client (fst (lib cs1)) (snd (lib cs1)) st = dissect is_client (fst (lib cs2)) (snd (lib cs2)) st.
+Proof. exact http_C08_chunking. Qed.
